@@ -18,7 +18,7 @@ import random
 
 from vlib.par import pmap
 from bounded.common import Suite, FmtStr, Chunk, cells
-from spec.terminal import Terminal, BLANK, show, pyte_new, compare_with_pyte
+from spec.terminal import Terminal, BLANK, show, pyte_new, compare_with_pyte, selftest_against_pyte
 
 LEVEL = "exploration"
 ASSUMPTIONS = [
@@ -388,9 +388,28 @@ def _collect(s, check, results, stats):
     s.nontrivial = set(range(distinct))
 
 
+def deductive(check, tier):
+    """scroll accounting of CursorAwareWindow.render_to_terminal (integers only; everything else abstracted)"""
+    import contracts.window as W
+    from pyvc.verify import verify
+    verify(W.caw_render, tier, check)
+    check.assume("deductive layer covers only the integer bookkeeping (number of scroll_down calls, top_usable_row, return value, cursor "
+                 "row) with row caches / lines / escape strings abstracted to opaque values; BaseWindow.scroll_down is assumed to scroll "
+                 "by exactly one line; what the terminal shows is decided by the bounded suite")
+
+
 def run(check, tier, seed):
+    deductive(check, tier)
     thorough = tier == "thorough"
     stats = dict(compared=0, fails=0, kinds={})
+    if thorough:
+        # the reference model itself against pyte.HistoryScreen on random escape streams (disagreement = harness problem, never a violation)
+        tot = 0
+        for n, bad in pmap(_selftest, [(1500, seed * 2003 + 77 + k) for k in range(14)]):
+            tot += n
+            for b in bad[:3]:
+                check.engine_error("reference terminal vs pyte on a random escape stream: " + b)
+        check.note(f"reference terminal agreed with pyte on {tot} random escape streams")
     fam = FAMILY_CACHE()
     s = Suite(check, "C07.family", "enumerated: every terminal size 1..5 x 1..5 x 0..height+3 lines of earlier output (coloured, the last ones "
               "scrolled into scrollback) x first render of 0..height+2 rows x second render of 0..height+2 rows (alternately repeating the first "
@@ -416,3 +435,8 @@ def run(check, tier, seed):
     s.done()
     kinds = ", ".join(f"{c}[junk_below={j}]x{k}" for (c, j), k in sorted(stats["kinds"].items()))
     check.note(f"C07: {stats['fails']} failing histories ({kinds or 'none'})" + (f"; pyte compared after {stats['compared']} renders" if thorough else ""))
+
+
+def _selftest(job):
+    n, seed = job
+    return selftest_against_pyte(n, seed)
